@@ -353,8 +353,10 @@ func serialise(r *rand.Rand, g Graph, plain bool) sDoc {
 		byID[n.ID] = n
 	}
 	embedded := map[string]bool{}
+	described := map[string]bool{} // every node is described once (a second description would have to name its @id-less children)
 	var build func(n GNode, ancestors map[string]bool) *sNode
 	build = func(n GNode, ancestors map[string]bool) *sNode {
+		described[n.ID] = true
 		sn := &sNode{id: mkID(n.ID, true), typeBare: r.Intn(2) == 0}
 		for _, t := range n.Types {
 			// @type values are vocabulary IRIs: absolute or compact, never relative
@@ -379,7 +381,7 @@ func serialise(r *rand.Rand, g Graph, plain bool) sDoc {
 						if mustEmbed && k > 0 {
 							continue // a node without @id cannot be stated twice
 						}
-						if known && k == 0 && refCount[v.S] == 1 && v.S != n.ID && !ancestors[v.S] && !embedded[v.S] && (mustEmbed || r.Intn(2) == 0) {
+						if known && k == 0 && refCount[v.S] == 1 && v.S != n.ID && !ancestors[v.S] && !embedded[v.S] && !described[v.S] && (mustEmbed || r.Intn(2) == 0) {
 							embedded[v.S] = true
 							anc := map[string]bool{n.ID: true}
 							for a := range ancestors {
